@@ -1731,7 +1731,8 @@ def check_sources_partition(rep, prog, rid):
                 if len(ifs) == 1 and isinstance(target, ast.Name) and isinstance(c, ast.Attribute) and isinstance(c.value, ast.Name) and c.value.id == target.id:
                     flt = '$1.%s' % c.attr
                 else:
-                    raise AnalysisError('PGPKey.verify: filter of the loop over %s not understood' % src_text(it))
+                    # not a type partition of the element: only a problem when this source shares its base with another one
+                    flt = '?' + ' and '.join(ast.unparse(x) for x in ifs)
             sources.append((src_text(it), flt))
     # itertools.chain(a, b, c), iterated directly or through a local, walks each of its arguments
     for nd in ast.walk(fi.node):
@@ -1796,6 +1797,8 @@ def check_sources_partition(rep, prog, rid):
         for j in range(i + 1, len(res)):
             (c1, b1, f1), (c2, b2, f2) = res[i], res[j]
             overlap = b1 == b2 and not disjoint(f1, f2)
+            if overlap and any((f or '').startswith('?') for f in (f1, f2)):
+                raise AnalysisError('PGPKey.verify: filter of the loop over %s not understood' % (c1 if (f1 or '').startswith('?') else c2))
             rep.check(not overlap, rid, 'PGPKey.verify', 'sources %s / %s' % (c1, c2),
                       'the collections the (signature, subject) pairs are gathered from must not overlap: an owner reachable through '
                       'both has each of its certifications examined and listed twice', where=fi.where,
